@@ -40,6 +40,8 @@ theorem C03_finish_plain (rec : Rec) (u p : Nat) (wt : Waiter) (s : State) :
   unfold killFinish
   simp only [bind]
   erw [if_neg (by simp)]
+  simp only [pure]
+  erw [if_neg (by simp)]
 
 /-- … and `Process.stop()` on a process whose exit has been seen (`returncode` set) signals nothing -/
 theorem C03_stop_dead_is_silent (p : Nat) (s : State) (rc : Int) (h : (getO p s).1.rc = some rc) :
@@ -67,13 +69,30 @@ theorem C03_sigkill_at_timeout (rec : Rec) (u p sig i polls : Nat) (wt : Waiter)
   unfold killLoop
   erw [if_neg hi]
 
-theorem C03_escalation_is_sigkill (rec : Rec) (u p : Nat) (wt : Waiter) (s : State) :
+/-- the escalation is `send_signal_process(process, SIGKILL, recursive=True)`; unless that call fails because the
+    daemon is not permitted to signal the worker or one of its descendants (`AccessDenied`, the only exception it lets
+    through), the `stopping` flag is cleared, `Process.stop()` runs and the kill returns True -/
+theorem C03_escalation_is_sigkill (rec : Rec) (u p : Nat) (wt : Waiter) (s : State)
+    (hok : (sendSignalProcess u p 9 true s).1 = true) :
     killFinish rec u p true wt s =
       deliver rec wt (.bool true)
         (objStop p (setObjStopping p false (sendSignalProcess u p 9 true s).2).2).2 := by
   unfold killFinish
   simp only [bind]
   erw [if_pos rfl]
+  erw [if_neg (by rw [hok]; simp)]
+
+/-- **a SIGKILL that is refused (EPERM) has still been attempted at the timeout, and it fails the kill**: the
+    `AccessDenied` of `send_signal_process(process, SIGKILL, recursive=True)` escapes from `kill_process` — the
+    coroutine ends with that exception right after the attempt, `process.stopping` is left as it is and
+    `Process.stop()` is not called. -/
+theorem C03_escalation_denied (rec : Rec) (u p : Nat) (wt : Waiter) (s : State)
+    (hden : (sendSignalProcess u p 9 true s).1 = false) :
+    killFinish rec u p true wt s = deliver rec wt accessDenied (sendSignalProcess u p 9 true s).2 := by
+  unfold killFinish
+  simp only [bind]
+  erw [if_pos rfl]
+  erw [if_pos (by rw [hden]; rfl)]
 
 /-- **always within one polling step**: each suspension of the loop is a sleeper due exactly 100 ms
     later, so the escalation happens `polls · 100 ms` after the stop signal — between the grace period
@@ -86,16 +105,20 @@ theorem C03_sleep_is_100ms (k : Kont) (wt : Waiter) (s : State) :
 
 /-- **the stop signal comes first**: a kill of a worker that is not already being killed starts by
     delivering the requested signal, or the watcher's `stop_signal` when none was requested; if
-    the worker is already gone (`NoSuchProcess`) nothing else happens; otherwise the worker is
+    the worker is already gone (`NoSuchProcess`) nothing else happens and the kill returns False; if the daemon
+    is not permitted to signal it (`AccessDenied`) the kill fails with that exception and nothing else happens
+    (the worker is not marked `stopping`, no SIGKILL will follow); otherwise the worker is
     marked `stopping` and the polling loop starts at zero with `polls = ⌈graceful_timeout/100ms⌉`. -/
 theorem C03_stop_signal_first (rec : Rec) (u p : Nat) (sig gt : Option Nat) (wt : Waiter) (s : State)
     (hns : (getO p s).1.stopping = false) (hsc : (getW u s).1.stopChildren = false) :
     killProcess rec u p sig gt wt s =
-      (if (sendSignal u p (sig.getD (getW u s).1.stopSignal) s).1 = true then
+      (match (sendSignal u p (sig.getD (getW u s).1.stopSignal) s).1 with
+       | .ok =>
         killLoop rec u p (sig.getD (getW u s).1.stopSignal) 0 (pollsOf (gt.getD (getW u s).1.graceful)) wt
           (setObjStopping p true (notify u "kill" (some p) "-"
             (sendSignal u p (sig.getD (getW u s).1.stopSignal) s).2).2).2
-       else deliver rec wt (.bool false) (sendSignal u p (sig.getD (getW u s).1.stopSignal) s).2) := by
+       | .noSuch => deliver rec wt (.bool false) (sendSignal u p (sig.getD (getW u s).1.stopSignal) s).2
+       | .denied => deliver rec wt accessDenied (sendSignal u p (sig.getD (getW u s).1.stopSignal) s).2) := by
   unfold killProcess
   simp only [bind]
   have h1 : ¬ ((getO p (getW u s).snd).fst.stopping = true) := by
@@ -104,20 +127,38 @@ theorem C03_stop_signal_first (rec : Rec) (u p : Nat) (sig gt : Option Nat) (wt 
   erw [if_neg h1]
   have h2 : ¬ ((getW u s).fst.stopChildren = true) := by simp [hsc]
   erw [if_neg h2]
-  simp only [bind, pure]
+  simp only [pure]
   have e1 : (getO p (getW u s).snd).snd = s := rfl
   cases hok : (sendSignal u p (sig.getD (getW u s).fst.stopSignal) s).1
-  · have hok' : (sendSignal u p (sig.getD (getW u s).fst.stopSignal) (getO p (getW u s).snd).snd).fst = false := hok
-    erw [if_neg (by rw [hok']; simp)]
-    erw [if_pos (by rw [hok']; rfl)]
-    rfl
-  · have hok' : (sendSignal u p (sig.getD (getW u s).fst.stopSignal) (getO p (getW u s).snd).snd).fst = true := hok
+  · have hok' : (sendSignal u p (sig.getD (getW u s).fst.stopSignal) (getO p (getW u s).snd).snd).fst = SigRes.ok := hok
     erw [if_pos hok']
-    simp only [bind, pure]
-    erw [if_neg (by rw [hok']; simp)]
+    erw [if_neg (by rw [hok']; decide)]
+    erw [if_neg (by rw [hok']; decide)]
+    rfl
+  · have hok' : (sendSignal u p (sig.getD (getW u s).fst.stopSignal) (getO p (getW u s).snd).snd).fst = SigRes.noSuch := hok
+    erw [if_neg (by rw [hok']; decide)]
+    erw [if_neg (by rw [hok']; decide)]
+    erw [if_pos hok']
+    rfl
+  · have hok' : (sendSignal u p (sig.getD (getW u s).fst.stopSignal) (getO p (getW u s).snd).snd).fst = SigRes.denied := hok
+    erw [if_neg (by rw [hok']; decide)]
+    erw [if_pos hok']
     rfl
 
 /-! non-vacuity: graceful_timeout 250 ms means 3 polls, SIGKILL 300 ms after the stop signal -/
 example : pollsOf 250 = 3 ∧ pollsOf 0 = 0 ∧ pollsOf 300 = 3 := by decide
+
+/-- one watcher whose worker 100 the daemon is not permitted to signal (it runs under another uid) -/
+def c03e : State := run (initState [{ name := "a" }] [{ eperm := true }] 0) [.start, .wake]
+/-- … and one whose worker ignores the stop signal -/
+def c03o : State := run (initState [{ name := "a" }] [{ term := none }] 0) [.start, .wake]
+-- C03_escalation_denied / the `.denied` branch of C03_stop_signal_first: the attempt is in the log, refused (`!`)
+example : (getW 1 c03e).1.pids = [100] ∧ (sendSignalProcess 1 100 9 true c03e).1 = false ∧
+    (sendSignal 1 100 15 c03e).1 = .denied ∧ (getO 100 c03e).1.stopping = false ∧
+    (getW 1 c03e).1.stopChildren = false := by decide +kernel
+example : ((sendSignalProcess 1 100 9 true c03e).2.log.drop c03e.log.length).map showObs = ["o sig 100 9 r!"] := by
+  decide +kernel
+-- C03_escalation_is_sigkill / the `.ok` branch
+example : (sendSignalProcess 1 100 9 true c03o).1 = true ∧ (sendSignal 1 100 15 c03o).1 = .ok := by decide +kernel
 
 end Circus.Core
